@@ -184,7 +184,7 @@ pub fn probe_case(k: usize, d: f64, kt: f64, probes: u64, loops: u64, seed: u64)
         bounds,
         script: Script::Probe { d: vec![d], inner, jam: vec![] },
         cfg: OptCfg { steps, inner_steps: inner, kt_start: kt, kt_finish: None, kt_ratio: Some(0.), max_step_size: 1e-6, seed, convergence: None, builder_history: None },
-        via_api: false, aliases: vec![],
+        via_api: false, aliases: vec![], score_offset: 0.,
     }
 }
 
@@ -300,7 +300,7 @@ pub fn check(c: &Case, st: &mut Stats) {
                     // state, so the rung is d/2 there
                     script: Script::Pattern { pattern: pattern.into(), gap: if *steps == 1 { d } else { d / 2. } },
                     cfg: OptCfg { steps: *steps, inner_steps: *steps, kt_start: 1., kt_finish: Some(1.), kt_ratio: Some(0.), max_step_size: 1e-6, seed: first_seed + r, convergence: None, builder_history: None },
-                    via_api: true, aliases: vec![],
+                    via_api: true, aliases: vec![], score_offset: 0.,
                 };
                 let rep = mc::run_scripted(&sc, true);
                 if rep.panicked.is_some() || rep.log.len() < *steps as usize + 1 {
